@@ -36,6 +36,10 @@ def scenarios(tier):
     S.append(scenario('real_np3_gs', dict(NP=3, MAXITER=6, TEND=12, JAC=False), mc=False, real=real_runs()[:8]))
     S.append(scenario('real_ml2_np2', dict(NP=2, NL=2, NSW=[1, 1], MAXITER=5, PRED='pfasst_burnin', TEND=8), mc=False,
                       real=[r for r in real_runs() if r['problem'] in ('test', 'heat', 'imex')]))
+    # several sweeps per iteration on the finest level: the residual after each of them
+    S.append(scenario('real_np2_nsw3', dict(NP=2, NSW=[3], MAXITER=4, TEND=8), mc=False, real=real_runs()))
+    S.append(scenario('real_ml2_np2_nsw2', dict(NP=2, NL=2, NSW=[2, 1], MAXITER=4, PRED='fine_only', TEND=8), mc=False,
+                      real=[r for r in real_runs() if r['problem'] in ('test', 'heat', 'imex')]))
     S.append(scenario('real_np3_collupdate', dict(NP=3, MAXITER=6, TEND=12, ENDDEP=True), mc=False, real=real_runs()[:8]))
     if tier == 'thorough':
         S.append(scenario('T_np4_mi4', dict(NP=4, MAXITER=4, TEND=16), fd=(False, True), fc=(False, True), explore=60000,
